@@ -76,3 +76,11 @@ def rsplitOnR (x sep : Str) (maxsplit : Option Nat) : R (List Str) :=
   if sep.isEmpty then raise .valueError else .ok (rsplitOn x sep maxsplit)
 
 end Py
+
+namespace Py
+/-- `xs[i] = v` on a list -/
+def listSet {α : Type} (xs : List α) (i : Int) (v : α) : R (List α) :=
+  let n : Int := xs.length
+  let j := if i < 0 then n + i else i
+  if 0 ≤ j ∧ j < n then .ok (xs.set j.toNat v) else raise .indexError
+end Py
